@@ -21,12 +21,14 @@ func (s *PersistentHybridIndex) maybeCompact() error {
 
 	// Only compact if we have enough segments
 	if len(segments) < s.config.CompactionThreshold {
+		verifPoint("compact.skip", len(segments))
 		return nil
 	}
 
 	// Take the oldest segments for compaction
 	// This implements a simple leveled compaction strategy
 	toCompact := segments[:s.config.CompactionThreshold]
+	verifPoint("compact.begin", len(toCompact))
 
 	return s.compactSegments(toCompact)
 }
@@ -82,6 +84,7 @@ func (s *PersistentHybridIndex) compactSegments(segments []*segmentMetadata) err
 	}
 
 	// Get file sizes
+	verifPoint("crash:compact.written", newSegmentID)
 	totalSize, err := s.getSegmentSize(hybridPath, vectorPath, textPath, metadataPath)
 	if err != nil {
 		return fmt.Errorf("failed to get segment size: %w", err)
@@ -96,10 +99,12 @@ func (s *PersistentHybridIndex) compactSegments(segments []*segmentMetadata) err
 
 	// Add new segment
 	s.segmentManager.add(newSegment)
+	verifPoint("crash:compact.added", newSegmentID)
 
 	// Remove old segments
 	for _, seg := range segments {
 		s.segmentManager.remove(seg.id)
+		verifPoint("crash:compact.removed", seg.id)
 
 		// Delete old segment files
 		if err := s.provider.deleteSegment(seg.id); err != nil {
@@ -109,6 +114,7 @@ func (s *PersistentHybridIndex) compactSegments(segments []*segmentMetadata) err
 	}
 
 	s.mu.Unlock()
+	verifPoint("compact.end", newSegmentID)
 
 	return nil
 }
@@ -123,6 +129,7 @@ func (s *PersistentHybridIndex) writeIndexToSegment(
 	if err != nil {
 		return fmt.Errorf("failed to create hybrid file: %w", err)
 	}
+	verifPoint("crash:compact.create.hybrid", hybridPath)
 	defer hybridFile.Close()
 
 	hybridGz := gzip.NewWriter(hybridFile)
@@ -137,6 +144,7 @@ func (s *PersistentHybridIndex) writeIndexToSegment(
 		if err != nil {
 			return fmt.Errorf("failed to create vector file: %w", err)
 		}
+		verifPoint("crash:compact.create.vector", vectorPath)
 		defer vectorFile.Close()
 
 		vectorGz = gzip.NewWriter(vectorFile)
@@ -149,6 +157,7 @@ func (s *PersistentHybridIndex) writeIndexToSegment(
 		if err != nil {
 			return fmt.Errorf("failed to create text file: %w", err)
 		}
+		verifPoint("crash:compact.create.text", textPath)
 		defer textFile.Close()
 
 		textGz = gzip.NewWriter(textFile)
@@ -161,6 +170,7 @@ func (s *PersistentHybridIndex) writeIndexToSegment(
 		if err != nil {
 			return fmt.Errorf("failed to create metadata file: %w", err)
 		}
+		verifPoint("crash:compact.create.metadata", metadataPath)
 		defer metadataFile.Close()
 
 		metadataGz = gzip.NewWriter(metadataFile)
@@ -186,14 +196,19 @@ func (s *PersistentHybridIndex) writeIndexToSegment(
 	// Close gzip writers
 	if vectorGz != nil {
 		vectorGz.Close()
+		verifPoint("crash:compact.close.vector", vectorPath)
 	}
 	if textGz != nil {
 		textGz.Close()
+		verifPoint("crash:compact.close.text", textPath)
 	}
 	if metadataGz != nil {
 		metadataGz.Close()
+		verifPoint("crash:compact.close.metadata", metadataPath)
 	}
+	verifPoint("crash:compact.writeto-done", hybridPath, vectorPath, textPath, metadataPath)
 	hybridGz.Close()
+	verifPoint("crash:compact.close.hybrid", hybridPath)
 
 	return nil
 }
